@@ -430,7 +430,7 @@ Lemma c12_example :
   pv (client_parse (wire sl [b "Content-Length: 5"] (b "hell")) true false) = Incomplete /\
   pv (client_parse (wire sl [b "Transfer-Encoding: chunked"] (chunks_bytes [(b "5", b "hello")])) false false) = Complete /\
   pv (client_parse (wire sl [b "X-A: b"] (b "hel")) true false) = Complete /\
-  classify (Build_feat false (Some false) false true false false (Some 400) true false false false false 0) = 502.
+  classify (Build_feat false (Some false) false true false false (Some 400) true false false false false 0 false) = 502.
 Proof.
   cbn zeta. split; [|repeat split; vm_compute; reflexivity].
   unfold wf_head. repeat split; try (vm_compute; reflexivity). apply N.leb_le. reflexivity.
